@@ -107,7 +107,8 @@ fn craft(codec: CodecKind, comp: Option<CompKind>, c: &Crafted) -> (Frame, bool,
 fn gen_mutations(rng: &mut Rng) -> Vec<Mutation> {
     let n = *rng.pick(&[0usize, 1, 1, 2, 3]);
     (0..n)
-        .map(|_| match rng.below(8) {
+        .map(|_| match rng.below(9) {
+            8 => Mutation::SetHead { bytes: crate::wsim::hostile::gen_head(rng) },
             0 | 1 => Mutation::BitFlip { at: rng.next(), bit: rng.below(8) as u8 },
             2 => Mutation::Truncate { at: rng.next() },
             3 => Mutation::Insert { at: rng.next(), n: rng.usize(1, 8), fill: rng.next() },
@@ -370,7 +371,14 @@ async fn scenario(world: Rc<World>, sc: HostileScript) -> AResult<HostileReport>
 pub fn execute(prop: &str, sc: &HostileScript, opts: &ExecOpts) -> Outcome {
     let mut out = Outcome::default();
     let sc2 = sc.clone();
+    // whole-world allocation guard: no frame is larger than 1 MiB, so nothing in the server, the
+    // transport or the victim client has a reason to ask for hundreds of megabytes at once
+    crate::alloc_guard::arm(256 << 20);
     let res = run_world(sc.net, sc.rt_seed, Duration::from_secs(600), move |world| scenario(world, sc2));
+    let biggest = crate::alloc_guard::disarm();
+    if biggest > 0 {
+        out.violate(prop, "oversized-allocation", &format!("hostile-peer:{:?}", sc.role).to_lowercase(), format!("a single allocation of {biggest} bytes was requested while the victim handled crafted frames of at most 1 MiB"));
+    }
     let mut th = Hasher64::default();
     match res {
         Err(e) => {
